@@ -378,6 +378,34 @@ def declared_correspondence(chk: Check, n):
             chk.disagree("RatioOfMeans.aggr_cols vs model ratioAggrCols", dict(roles=roles, impl=real, model=mo))
 
 
+def shared_definition(chk: Check):
+    """Experiment(metrics_dict, **more): the caller's dict stays the caller's — a second experiment built from the SAME
+    dict with other keyword metrics has its own metrics, and the dict itself is unchanged"""
+    import numpy as np
+    import pyarrow as pa
+    import tea_tasting as tt
+    nprng = np.random.default_rng(chk.seed + 121)
+    n = 60
+    data = pa.table({"variant": [j % 2 for j in range(n)], "a": nprng.normal(3, 1, n), "b": nprng.normal(4, 1, n),
+                     "c": nprng.normal(5, 1, n)})
+    base = {"m_a": tt.Mean("a", rel_effect_size=0.1)}
+    chk.case(("shared-definition",))
+    chk.branch("shared-metrics-dict")
+    try:
+        e1 = tt.Experiment(base, m_b=tt.Mean("b", rel_effect_size=0.1))
+        e2 = tt.Experiment(base, m_c=tt.Mean("c", rel_effect_size=0.1))
+        r1, r2 = e1.analyze(data), e2.analyze(data)
+        p1, p2 = e1.solve_power(data, "power"), e2.solve_power(data, "power")
+    except Exception as ex:  # noqa: BLE001
+        chk.fail("Experiment built from a dict plus keyword metrics raised", dict(error=repr(ex)))
+        return
+    got = dict(base=list(base), e1=list(r1.keys()), e2=list(r2.keys()), p1=list(p1.keys()), p2=list(p2.keys()))
+    want = dict(base=["m_a"], e1=["m_a", "m_b"], e2=["m_a", "m_c"], p1=["m_a", "m_b"], p2=["m_a", "m_c"])
+    if got != want:
+        chk.fail("two experiments built from the same metrics dict (plus different keyword metrics) do not each analyse "
+                 "their own metrics / the caller's dict was modified", dict(got=got, expected=want))
+
+
 def main():
     chk = Check(PROP)
     chk.trusted = common.BASE_TRUST + [
@@ -395,6 +423,7 @@ def main():
     pairs_correspondence(chk, 120 if q else 1500)
     declared_correspondence(chk, 60 if q else 400)
     standalone(chk, 14 if q else 150)
+    shared_definition(chk)
     reuse.analyze_after_mutation(chk, 4 if q else 24, "an entry differs from the metric analysed alone on the same data")
     chk.cov["rule"] = ("pairs: 1..5 variant ids (int/str/bool) x control present/absent/None x all_variants; "
                        "definitions: 1..6 metrics from {Mean, Mean+cov, ratio, ratio+cov, SampleRatio, Quantile, custom "
